@@ -9,6 +9,11 @@ package wmpt
 // A short node always has a value below it.
 //@ typeinv shortNode: self.value != nil      #value-present
 
+// The weight a node reports: its own field for branch / value / hash nodes, its child's for a short
+// node (one level: W0 of the child), 0 for the empty node and for "no node".
+//@ spec W0(n Node) int = n == nil ? 0 : (n is *routingNode ? n.(*routingNode).weight : (n is *valueNode ? n.(*valueNode).weight : (n is *hashNode ? n.(*hashNode).weight : 0)))
+//@ spec W(n Node) int = n is *shortNode ? W0(n.(*shortNode).value) : W0(n)
+
 // ---- interface-level contracts (used at every n.Method() call through the Node interface);
 //      each implementation below is checked against the same clauses ----
 
@@ -16,6 +21,7 @@ package wmpt
 //@   pure
 //@ func (Node).Weight returns (w)
 //@   pure
+//@   ensures !(self is *shortNode) ==> w == W0(self)
 //@ func (Node).Dirty returns (d)
 //@   pure
 //@ func (Node).ToCollect returns (d)
@@ -40,20 +46,24 @@ package wmpt
 //@   assigns nothing
 
 //@ func (*routingNode).Weight returns (w)
-//@   props C15
+//@   props C15 C09
 //@   assigns nothing
+//@   ensures w == W0(iface(r))                                   #reports-own-weight
 //@ func (*valueNode).Weight returns (w)
-//@   props C15
+//@   props C15 C09
 //@   assigns nothing
+//@   ensures w == W0(iface(v))                                   #reports-own-weight
 //@ func (*shortNode).Weight returns (w)
 //@   props C15
 //@   assigns nothing
 //@ func (*hashNode).Weight returns (w)
-//@   props C15
+//@   props C15 C09
 //@   assigns nothing
+//@   ensures w == W0(iface(h))                                   #reports-own-weight
 //@ func (*nilNode).Weight returns (w)
-//@   props C15
+//@   props C15 C09
 //@   assigns nothing
+//@   ensures w == W0(iface(n))                                   #reports-own-weight
 
 //@ func (*routingNode).CalcHash returns (h)
 //@   props C15
@@ -126,3 +136,54 @@ package wmpt
 //@   props C15
 //@   mode wrap
 //@   requires t != nil
+
+// ================= C09: weight bookkeeping =================
+
+// Storage is an interface implemented outside this package (pebble adapter): assumed total.
+//@ func (storage.StorageAdapter).Get returns (data, err)
+//@   assigns nothing
+//@ func (storage.StorageAdapter).NewBatch returns (b)
+//@   assigns nothing
+//@   ensures b != nil
+//@ func (storage.Batcher).Delete returns (err)
+//@   assigns nothing
+//@ func (storage.Batcher).Put returns (err)
+//@   assigns nothing
+//@ func (storage.Batcher).Commit returns (err)
+//@   assigns nothing
+
+// Keys inside the trie are nibble strings.
+//@ pred Nibbles(k []byte) = forall i :: 0 <= i && i < len(k) ==> k[i] < 16
+
+//@ func commonPrefix returns (n)
+//@   props C09
+//@   assigns nothing
+//@   ensures 0 <= n && n <= len(a) && n <= len(b) && (forall i :: 0 <= i && i < n ==> a[i] == b[i])      #is-common-prefix
+//@   ensures n < len(a) && n < len(b) ==> a[n] != b[n]                                                    #maximal
+//@   loop 1 invariant 0 <= i && i <= length && length <= len(a) && length <= len(b) && (forall j :: 0 <= j && j < i ==> a[j] == b[j])
+
+//@ func keybytesToHex returns (nibbles)
+//@   props C09
+//@   mode wrap
+//@   assigns nothing
+//@   ensures len(nibbles) == 2 * len(str) && fresh(nibbles) && Nibbles(nibbles)                          #nibble-expansion
+//@   loop 1 invariant len(nibbles) == 2 * len(str) && fresh(nibbles) && off(nibbles) == 0 && (forall j :: 0 <= j && j < 2 * (rangeindex + 1) ==> nibbles[j] < 16)
+
+//@ func (*WeightedMerkleTrie).resolveHashNode returns (n, err)
+//@   props C09
+//@   mode wrap
+//@   requires node != nil
+//@   assigns nothing
+//@   ensures err == nil ==> n != nil && fresh(n)
+
+// insert returns the weight delta of the subtree it was given: new weight = old weight + change.
+// In the path-exhausted case (len(key) == 0) no recursion is involved and the clause is exact; the
+// recursive cases need a separation (tree-shape) argument that is outside the contracts here.
+//@ func (*WeightedMerkleTrie).insert returns (change, n2, err)
+//@   props C09
+//@   mode wrap
+//@   opt only ^post#
+//@   requires t != nil && value is *valueNode && value.(*valueNode) != nil && Nibbles(key)
+//@   ensures err == nil ==> n2 != nil                                                                         #returns-a-node
+//@   ensures len(key) == 0 && err == nil && (node == nil || node is *nilNode || node is *valueNode || node is *hashNode)
+//@      | && W0(value) <= 4611686018427387904 && old(W(node)) <= 4611686018427387904 ==> W(n2) == old(W(node)) + change      #pathend.delta
